@@ -8,16 +8,21 @@ package main
 // seed) before it is reported.
 
 import (
+	"context"
+	"crypto/tls"
 	"fmt"
 	"io"
 	"math/rand"
 	"net"
+	"os"
 	"sort"
 	"strings"
 	"sync"
+	"syscall"
 	"time"
 
 	fmux "github.com/hashicorp/yamux"
+	quic "github.com/quic-go/quic-go"
 
 	v1 "github.com/fatedier/frp/pkg/config/v1"
 	"github.com/fatedier/frp/pkg/msg"
@@ -112,15 +117,72 @@ func loginMux(s *hx.Server) (*hx.Peer, error) {
 	return &hx.Peer{S: s, Conn: stream, RW: rw, RunID: resp.RunID, Token: hx.DefaultToken}, nil
 }
 
-func hbServer(addr string, T int64, scopes bool, mux bool) (*hx.Server, error) {
+// the control connection of a scripted peer carried on a QUIC stream (own adapter, not frp's)
+type quicStreamConn struct {
+	quic.Stream
+	c quic.Connection
+}
+
+func (q *quicStreamConn) LocalAddr() net.Addr  { return q.c.LocalAddr() }
+func (q *quicStreamConn) RemoteAddr() net.Addr { return q.c.RemoteAddr() }
+
+// scripted login over QUIC; the QUIC layer keeps itself alive (keep-alive period 1 s) whatever the
+// application on top of it does
+func loginQuic(s *hx.Server, quicPort int) (*hx.Peer, func(), error) {
+	ctx, cancel := context.WithTimeout(context.Background(), 5*time.Second)
+	defer cancel()
+	qc, err := quic.DialAddr(ctx, net.JoinHostPort(s.Addr, fmt.Sprint(quicPort)),
+		&tls.Config{InsecureSkipVerify: true, NextProtos: []string{"frp"}},
+		&quic.Config{MaxIdleTimeout: 60 * time.Second, KeepAlivePeriod: time.Second})
+	if err != nil {
+		return nil, nil, err
+	}
+	closeAll := func() { _ = qc.CloseWithError(0, "") }
+	st, err := qc.OpenStreamSync(ctx)
+	if err != nil {
+		closeAll()
+		return nil, nil, err
+	}
+	conn := &quicStreamConn{Stream: st, c: qc}
+	ts := time.Now().Unix()
+	lm := &msg.Login{Version: "0.61.0", Hostname: "h", Os: "linux", Arch: "amd64",
+		PrivilegeKey: util.GetAuthKey(hx.DefaultToken, ts), Timestamp: ts, Metas: map[string]string{}}
+	if err := msg.WriteMsg(conn, lm); err != nil {
+		closeAll()
+		return nil, nil, err
+	}
+	_ = conn.SetReadDeadline(time.Now().Add(5 * time.Second))
+	var resp msg.LoginResp
+	if err := msg.ReadMsgInto(conn, &resp); err != nil {
+		closeAll()
+		return nil, nil, err
+	}
+	_ = conn.SetReadDeadline(time.Time{})
+	if resp.Error != "" {
+		closeAll()
+		return nil, nil, fmt.Errorf("login refused: %s", resp.Error)
+	}
+	rw, err := netpkg.NewCryptoReadWriter(conn, []byte(hx.DefaultToken))
+	if err != nil {
+		closeAll()
+		return nil, nil, err
+	}
+	return &hx.Peer{S: s, Conn: conn, RW: rw, RunID: resp.RunID, Token: hx.DefaultToken}, closeAll, nil
+}
+
+func hbServer(addr string, T int64, scopes bool, mux bool, quicPort ...int) (*hx.Server, error) {
 	return hx.StartServer(addr, func(c *v1.ServerConfig) {
 		c.Transport.HeartbeatTimeout = T
 		if mux {
 			t := true
 			c.Transport.TCPMux = &t
 		}
+		if len(quicPort) == 1 {
+			c.QUICBindPort = quicPort[0]
+		}
 		if scopes {
-			c.Auth.AdditionalScopes = []v1.AuthScope{v1.AuthScopeHeartBeats}
+			// both scopes, as a deployment that protects everything would configure them
+			c.Auth.AdditionalScopes = []v1.AuthScope{v1.AuthScopeHeartBeats, v1.AuthScopeNewWorkConns}
 		}
 	})
 }
@@ -151,16 +213,31 @@ func drainPeer(p *hx.Peer, lg *pongLog, closed chan<- time.Time) {
 }
 
 // ---- scenario: scripted client pings k times, then falls silent (optionally keeps sending invalid pings) ----
-func scenSilentClient(name, addr string, T int64, validAt []int64, invalidEvery int64, scopes bool, mux bool) scenResult {
+func scenSilentClient(name, addr string, T int64, validAt []int64, invalidEvery int64, scopes bool, mux bool, overQuic ...bool) scenResult {
 	res := scenResult{name: name, info: map[string]any{}}
-	s, err := hbServer(addr, T, scopes, mux)
+	useQuic := len(overQuic) == 1 && overQuic[0]
+	var s *hx.Server
+	var err error
+	qport := 0
+	if useQuic {
+		qport = hx.FreeUDPPort(addr)
+		s, err = hbServer(addr, T, scopes, mux, qport)
+	} else {
+		s, err = hbServer(addr, T, scopes, mux)
+	}
 	if err != nil {
 		res.problems = append(res.problems, "server start: "+err.Error())
 		return res
 	}
 	defer s.Close()
 	var p *hx.Peer
-	if mux {
+	if useQuic {
+		var closeQ func()
+		p, closeQ, err = loginQuic(s, qport)
+		if err == nil {
+			defer closeQ()
+		}
+	} else if mux {
 		p, err = loginMux(s)
 	} else {
 		p, _, err = s.Login(hx.LoginOpts{})
@@ -326,6 +403,8 @@ type fakeSession struct {
 	pongErr  int64
 	closedAt int64
 	proxies  map[string]int
+	reqAt    []int64 // instants at which the scripted server sent ReqWorkConn
+	wmu      sync.Mutex
 }
 
 type fakeServer struct {
@@ -339,6 +418,33 @@ type fakeServer struct {
 	pongErrOn int  // answer the n-th ping (1-based) with an error Pong; 0 = never
 	mux       bool // speak yamux (server side) on every accepted connection
 	conns     []net.Conn
+	acceptMax int           // stop accepting after this many connections (0 = no limit)
+	reqWorkAt time.Duration // send reqWorkN ReqWorkConn this long after the login
+	reqWorkN  int
+}
+
+// a listening socket with backlog 0: once one un-accepted connection sits in its queue the kernel
+// drops further SYNs, so new connections hang (until the dialer's timeout) while established ones
+// are unaffected - what a full accept queue / a firewall dropping SYNs looks like to frpc
+func smallBacklogListener(ip string) (net.Listener, error) {
+	fd, err := syscall.Socket(syscall.AF_INET, syscall.SOCK_STREAM, 0)
+	if err != nil {
+		return nil, err
+	}
+	_ = syscall.SetsockoptInt(fd, syscall.SOL_SOCKET, syscall.SO_REUSEADDR, 1)
+	var a [4]byte
+	copy(a[:], net.ParseIP(ip).To4())
+	if err := syscall.Bind(fd, &syscall.SockaddrInet4{Port: 0, Addr: a}); err != nil {
+		syscall.Close(fd)
+		return nil, err
+	}
+	if err := syscall.Listen(fd, 0); err != nil {
+		syscall.Close(fd)
+		return nil, err
+	}
+	fl := os.NewFile(uintptr(fd), "c14-listener")
+	defer fl.Close()
+	return net.FileListener(fl)
 }
 
 func newFakeServer(addr string, port int, token string) (*fakeServer, error) {
@@ -346,40 +452,53 @@ func newFakeServer(addr string, port int, token string) (*fakeServer, error) {
 	if err != nil {
 		return nil, err
 	}
-	f := &fakeServer{ln: ln, token: token}
+	return newFakeServerOn(ln, token, 0), nil
+}
+
+func newFakeServerOn(ln net.Listener, token string, acceptMax int) *fakeServer {
+	f := &fakeServer{ln: ln, token: token, acceptMax: acceptMax}
 	go func() {
+		n := 0
 		for {
 			c, err := ln.Accept()
 			if err != nil {
 				return
 			}
-			f.mu.Lock()
-			f.conns = append(f.conns, c)
-			isMux := f.mux
-			f.mu.Unlock()
-			if !isMux {
-				go f.handle(c)
-				continue
+			n++
+			f.serve(c)
+			if f.acceptMax > 0 && n >= f.acceptMax {
+				return // the listener stays open, nobody accepts any more
 			}
-			go func(c net.Conn) {
-				mc := fmux.DefaultConfig()
-				mc.LogOutput = io.Discard
-				sess, err := fmux.Server(c, mc)
-				if err != nil {
-					c.Close()
-					return
-				}
-				for {
-					st, err := sess.AcceptStream()
-					if err != nil {
-						return
-					}
-					go f.handle(st)
-				}
-			}(c)
 		}
 	}()
-	return f, nil
+	return f
+}
+
+func (f *fakeServer) serve(c net.Conn) {
+	f.mu.Lock()
+	f.conns = append(f.conns, c)
+	isMux := f.mux
+	f.mu.Unlock()
+	if !isMux {
+		go f.handle(c)
+		return
+	}
+	go func(c net.Conn) {
+		mc := fmux.DefaultConfig()
+		mc.LogOutput = io.Discard
+		sess, err := fmux.Server(c, mc)
+		if err != nil {
+			c.Close()
+			return
+		}
+		for {
+			st, err := sess.AcceptStream()
+			if err != nil {
+				return
+			}
+			go f.handle(st)
+		}
+	}(c)
 }
 
 func (f *fakeServer) port() int { return f.ln.Addr().(*net.TCPAddr).Port }
@@ -429,6 +548,22 @@ func (f *fakeServer) handle(c net.Conn) {
 	if err != nil {
 		return
 	}
+	send := func(m msg.Message) {
+		sess.wmu.Lock()
+		defer sess.wmu.Unlock()
+		_ = msg.WriteMsg(rw, m)
+	}
+	if f.reqWorkN > 0 {
+		go func() {
+			time.Sleep(f.reqWorkAt)
+			for i := 0; i < f.reqWorkN; i++ {
+				send(&msg.ReqWorkConn{})
+				f.mu.Lock()
+				sess.reqAt = append(sess.reqAt, ms(sess.t0, time.Now()))
+				f.mu.Unlock()
+			}
+		}()
+	}
 	for {
 		m, err := msg.ReadMsg(rw)
 		if err != nil {
@@ -445,12 +580,12 @@ func (f *fakeServer) handle(c net.Conn) {
 			f.mu.Unlock()
 			switch {
 			case f.pongErrOn > 0 && k == f.pongErrOn:
-				_ = msg.WriteMsg(rw, &msg.Pong{Error: "scripted pong error"})
+				send(&msg.Pong{Error: "scripted pong error"})
 				f.mu.Lock()
 				sess.pongErr = ms(sess.t0, time.Now())
 				f.mu.Unlock()
 			case k <= f.pongLimit:
-				_ = msg.WriteMsg(rw, &msg.Pong{})
+				send(&msg.Pong{})
 				f.mu.Lock()
 				sess.pongs = append(sess.pongs, ms(sess.t0, time.Now()))
 				f.mu.Unlock()
@@ -459,7 +594,7 @@ func (f *fakeServer) handle(c net.Conn) {
 			f.mu.Lock()
 			sess.proxies[v.ProxyName] = v.RemotePort
 			f.mu.Unlock()
-			_ = msg.WriteMsg(rw, &msg.NewProxyResp{ProxyName: v.ProxyName, RemoteAddr: fmt.Sprintf(":%d", v.RemotePort)})
+			send(&msg.NewProxyResp{ProxyName: v.ProxyName, RemoteAddr: fmt.Sprintf(":%d", v.RemotePort)})
 		}
 	}
 }
@@ -471,7 +606,7 @@ func tcpProxy(name, localIP string, localPort, remotePort int) v1.ProxyConfigure
 	return pc
 }
 
-func startRealClient(addr string, port int, token string, proxies []v1.ProxyConfigurer, I, T int64, mux bool) (*hx.Client, error) {
+func startRealClient(addr string, port int, token string, proxies []v1.ProxyConfigurer, I, T int64, mux bool, extra ...func(*v1.ClientCommonConfig)) (*hx.Client, error) {
 	f := mux
 	fs := &hx.Server{Addr: addr, Port: port, Cfg: &v1.ServerConfig{}}
 	fs.Cfg.Auth.Token = token
@@ -480,6 +615,9 @@ func startRealClient(addr string, port int, token string, proxies []v1.ProxyConf
 		cc.Transport.HeartbeatInterval = I
 		cc.Transport.HeartbeatTimeout = T
 		cc.LoginFailExit = nil // hx.StartClient presets false; nil = the stock default (true) after Complete
+		for _, e := range extra {
+			e(cc)
+		}
 	})
 }
 
@@ -661,6 +799,99 @@ func scenPongError(addr string, I, T int64) scenResult {
 	}
 	res.cases = append(res.cases, fmt.Sprintf("CCliWatch %d %d %s %s %s %d %d", I, T, zlist(s0.pongs), coqZ(s0.pongErr), coqZ(s0.closedAt), until, slackMs))
 	res.info["pong_err_ms"], res.info["closed_at_ms"] = s0.pongErr, s0.closedAt
+	return res
+}
+
+// ---- scenario: the control connection is healthy (every Ping answered at once) but NEW connections to the
+//      server hang until dialServerTimeout, and the server asks for work connections: the client must keep
+//      the session (tcpMux off: Connector.Connect is a real dial) ----
+func scenBlockedDials(addr string, I, T int64, dialTimeoutS int64, nReq int, window int64) scenResult {
+	res := scenResult{name: "blocked_dials", info: map[string]any{}}
+	ln, err := smallBacklogListener(addr)
+	if err != nil {
+		res.problems = append(res.problems, "listener: "+err.Error())
+		return res
+	}
+	f := newFakeServerOn(ln, hx.DefaultToken, 1) // accepts the control connection only
+	defer f.close()
+	f.pongLimit = 1 << 30
+	f.reqWorkAt = time.Second
+	f.reqWorkN = nReq
+	cl, err := startRealClient(addr, f.port(), hx.DefaultToken, nil, I, T, false, func(cc *v1.ClientCommonConfig) {
+		cc.Transport.DialServerTimeout = dialTimeoutS
+	})
+	if err != nil {
+		res.problems = append(res.problems, err.Error())
+		return res
+	}
+	defer cl.Close()
+	var s0 *fakeSession
+	for i := 0; i < 300 && s0 == nil; i++ {
+		f.mu.Lock()
+		if len(f.sessions) >= 1 && !f.sessions[0].t0.IsZero() {
+			s0 = f.sessions[0]
+		}
+		f.mu.Unlock()
+		time.Sleep(10 * time.Millisecond)
+	}
+	if s0 == nil {
+		res.problems = append(res.problems, "the client never logged in")
+		return res
+	}
+	// fill the accept queue: from now on new connections hang
+	target := net.JoinHostPort(addr, fmt.Sprint(f.port()))
+	filler, err := net.DialTimeout("tcp", target, time.Second)
+	if err == nil {
+		defer filler.Close()
+	}
+	if pc, perr := net.DialTimeout("tcp", target, 250*time.Millisecond); perr == nil {
+		pc.Close()
+		res.problems = append(res.problems, "environment: a new connection to the full listener did not hang")
+		return res
+	}
+	for {
+		f.mu.Lock()
+		closed := s0.closedAt
+		f.mu.Unlock()
+		if closed >= 0 || ms(s0.t0, time.Now()) >= window {
+			break
+		}
+		time.Sleep(20 * time.Millisecond)
+	}
+	f.mu.Lock()
+	defer f.mu.Unlock()
+	until := ms(s0.t0, time.Now())
+	type arr struct {
+		at  int64
+		txt string
+	}
+	as := []arr{}
+	for _, p := range s0.pongs {
+		as = append(as, arr{p, fmt.Sprintf("AR %d (MPong false) 0", p)})
+	}
+	for _, q := range s0.reqAt {
+		as = append(as, arr{q, fmt.Sprintf("AR %d MReqWorkConn %d", q, dialTimeoutS*1000)})
+	}
+	sort.SliceStable(as, func(i, j int) bool { return as[i].at < as[j].at })
+	it := make([]string, len(as))
+	for i, a := range as {
+		it[i] = a.txt
+	}
+	lastp := int64(0)
+	if len(s0.pongs) > 0 {
+		lastp = s0.pongs[len(s0.pongs)-1]
+	}
+	res.ok = s0.closedAt < 0 && len(s0.reqAt) == nReq
+	if s0.closedAt >= 0 {
+		res.problems = append(res.problems, fmt.Sprintf("the client closed a session whose server answered every Ping (last Pong sent at %d ms, closed at %d ms, timeout %d s) while %d work-connection dials were hanging for %d s each", lastp, s0.closedAt, T, len(s0.reqAt), dialTimeoutS))
+	}
+	if len(s0.reqAt) != nReq {
+		res.problems = append(res.problems, fmt.Sprintf("only %d of %d ReqWorkConn could be sent", len(s0.reqAt), nReq))
+	}
+	res.info["pongs_sent"], res.info["closed_at_ms"], res.info["reqworkconn_at_ms"] = len(s0.pongs), s0.closedAt, s0.reqAt
+	res.cases = append(res.cases,
+		fmt.Sprintf("CCliStarve %d %d %s %s %d %d", I, T, coqList(it), coqZ(s0.closedAt), until, slackMs),
+		fmt.Sprintf("CCliWatch %d %d %s (-1) %s %d %d", I, T, zlist(s0.pongs), coqZ(s0.closedAt), until, slackMs))
 	return res
 }
 
@@ -954,7 +1185,13 @@ func runLiveness(cfg *runCfg) error {
 	// the server sends LoginResp and then nothing at all, not even a first Pong (tcpMux off and on)
 	scens = append(scens,
 		func() scenResult { return scenSilentServer("silent_from_start", "127.0.14.8", 1, 2, 0, false) },
-		func() scenResult { return scenSilentServer("silent_from_start_mux", "127.0.14.9", 1, 2, 0, true) })
+		func() scenResult { return scenSilentServer("silent_from_start_mux", "127.0.14.9", 1, 2, 0, true) },
+		// the control connection is a QUIC stream whose QUIC connection stays alive: same rule, and the port is released
+		func() scenResult {
+			return scenSilentClient("silent_client_quic", "127.0.14.11", 2, []int64{400}, 0, false, false, true)
+		},
+		// healthy control connection, new connections to the server black-holed, three ReqWorkConn
+		func() scenResult { return scenBlockedDials("127.0.14.10", 1, 3, 2, 3, 9000) })
 
 	results := make([]scenResult, len(scens))
 	runs := make([]int, len(scens))
